@@ -60,6 +60,17 @@ def make_scenarios(ctx, count):
             descs = []
             for j in range(n):
                 dst = b if rng.random() < 0.85 else rng.choice(neta.strangers)
+                if descs and rng.random() < 0.25:
+                    # a sibling of the previous descriptor: the same spoofed source towards another station (a mapper probes several
+                    # switch ports with one source), or the same pair with the other kind
+                    pk, pp, ps, pd = descs[-1]
+                    sib = rng.choice(["other-destination", "other-destination", "other-kind"])
+                    if sib == "other-destination":
+                        descs.append((rng.randint(0, 1), rng.choice([0, 0, 1]), ps, b if pd != b else rng.choice(neta.strangers)))
+                    else:
+                        descs.append((1 - pk, rng.choice([0, 0, 1]), ps, pd))
+                    s.meta["sibling_descriptors"] = s.meta.get("sibling_descriptors", 0) + 1
+                    continue
                 descs.append((rng.randint(0, 1), rng.choice([0, 0, 1, 3, 255]), srcs[j] if rng.random() < 0.9 else srcs[0], dst))
             # unrelated traffic on both
             for _ in range(rng.randint(0, 3)):
@@ -116,6 +127,7 @@ def monitor(scn, sobj, rep, sf, ck):
     it = iter(scn.inputs)
     pend = None
     expect_prev, listed_prev = {}, set()
+    emit_sends = 0
     expect = {}       # (eth src) -> raw frame delivered, for this round
     listed = set()
     delivered_total = 0
@@ -135,6 +147,8 @@ def monitor(scn, sobj, rep, sf, ck):
             if inp is None or inp.out is None:
                 dead = True
                 break
+            if op[0] == "EMIT":
+                emit_sends = inp.out[0] if inp.out else 0
             if op[0] == "QUERY":
                 for e in inp.sends():
                     raw = e[3]
@@ -143,6 +157,7 @@ def monitor(scn, sobj, rep, sf, ck):
                         for (kind, rsrc, esrc, edst) in descs:
                             listed.add((rsrc, esrc, edst))
         elif op[0] == "DELIVER":
+            got_here = set()
             # consume the D inputs produced by the delivery
             while nxt is not None and nxt.op == "D":
                 inp = nxt
@@ -153,10 +168,23 @@ def monitor(scn, sobj, rep, sf, ck):
                         if len(raw) >= 18 and raw[17] in (W.OP_PROBE, W.OP_TRAIN):
                             # only emitted Probe/Train frames are observations (A's ACK may travel via B when B is the bridge)
                             expect[raw[6:12]] = raw
+                            got_here.add(bytes(raw[6:12]))
                             delivered_total += 1
                 if inp.out is None:
                     dead = True
                     break
+            # the mapper ordered A to emit towards B: when A carried the Emit out (one frame per descriptor and the ACK), each of
+            # those frames reaches B - a frame that goes to somebody else is not recorded by B either
+            descs_here = op[1]
+            if not dead and emit_sends == len(descs_here) + 1:
+                for (_k, _p, s_i, d_i) in descs_here:
+                    if d_i == b and s_i not in got_here:
+                        rep.violation("C10:emitted-frame-not-reported-by-peer:never-reached-the-peer",
+                                      "scenario %s: A=%s carried out an Emit of %d descriptors; the one with source %s towards B=%s produced "
+                                      "no frame with B as its Ethernet destination (descriptors: %s)"
+                                      % (scn.sid, a.hex(), len(descs_here), s_i.hex(), b.hex(),
+                                         ["%d:%s>%s" % (k_, x.hex(), y.hex()) for (k_, _q, x, y) in descs_here][:6]), replay=sobj.text())
+                        break
         elif op[0] == "HALF":
             # one QueryResp has been fetched and more may be pending: what was delivered so far must show up in that response
             # or in a later one; what is delivered from now on must show up in a later one
@@ -189,6 +217,7 @@ def monitor(scn, sobj, rep, sf, ck):
     if sobj.meta.get("b_is_bridge"):
         rep.count("frames_delivered_to_the_mappers_bridge", delivered_total)
     rep.count("rounds", rounds)
+    rep.count("sibling_descriptors", sobj.meta.get("sibling_descriptors", 0))
     if delivered_total and len(rep.samples) < 2:
         rep.sample(dict(scenario=scn.sid, A=a.hex(), B=b.hex(), delivered=delivered_total, rounds=rounds))
 
@@ -211,6 +240,7 @@ def run(ctx):
     run_monitored(ctx, os_clang, scns[third:2 * third], monitor, tag="peer-clang-os")
     run_monitored(ctx, uchar, scns[2 * third:], monitor, tag="peer-uchar")
     rep.need("frames_delivered", rep.counters.get("frames_delivered", 0), 1000)
+    rep.need("sibling_descriptors", rep.counters.get("sibling_descriptors", 0), 200)
     rep.need("frames_emitted_again_after_a_truncated_response", rep.counters.get("frames_emitted_again_after_a_truncated_response", 0), 20)
     rep.need("emitter_address_changed_mid_session", rep.counters.get("emitter_address_changed_mid_session", 0), 30)
     rep.need("frames_delivered_to_the_mappers_bridge", rep.counters.get("frames_delivered_to_the_mappers_bridge", 0), 100)
